@@ -66,6 +66,8 @@ pub struct Arena {
     pub var_names: Vec<String>,
     pub var_bits: Vec<u32>,
     pub var_nonzero: Vec<bool>,
+    /// 0 = driver input, 1 = random-oracle output, 2 = RNG draw
+    pub var_kind: Vec<u8>,
     pub ro_entries: Vec<RoEntry>,
     pub pins: usize,
     pub pin_notes: Vec<String>,
